@@ -201,7 +201,9 @@ def run_job(job, ctx):
                          attrs_fn=_attrs_fn(script), max_depth=4, max_items=6, max_blocks=14, foreign=True,
                          final_newline=r.random() < 0.85, bom=r.random() < 0.12)
             g = gen.gen_file(r, lang, o)
-            out.append(check_file(ctx, suffix, g, flavour, dict(job, j=j)))
+            # the file may live in a sub-directory (whole-name suffixes such as Makefile / go.mod are looked up by base name)
+            where = r.choice(["", "", "pkg/", "a.b/c d/"])
+            out.append(check_file(ctx, suffix, g, flavour, dict(job, j=j), name=where + langs.file_name_for(suffix)))
     elif job["k"] == "md-nested":
         for j in range(6):
             r = rng("c03md", job["seed"], suffix, job["i"], j)
